@@ -1,6 +1,7 @@
 mod alloc;
 mod bitops;
 mod branchupd;
+mod bttree;
 mod core_mp;
 mod core_pp;
 mod crash;
@@ -79,6 +80,7 @@ fn main() {
         "extrange" => extrange::run(seed, cases, &mut sink),
         "openpath" => openpath::run(seed, cases, &mut sink),
         "openpath-findings" => openpath::run_findings(seed, &mut sink),
+        "bttree" => bttree::run(seed, cases, &mut sink),
         "overlay-index" => ovl::run(seed, cases, &mut sink),
         "bitops" => bitops::run(seed, cases, &mut sink),
         "bitops-node" => bitops::run_nodes(seed, cases, &mut sink),
